@@ -2272,11 +2272,27 @@ _VIA_FLOORS = {
                             'via:reread:%s:ctor': 165},
               'per-src': {'via:src:%s': 150, 'via:accepted:src:%s': 65}, 'per-mvobj-class': 12,
               'per-combo': {'update': 4, 'update-kw': 4, 'ctor': 4, 'ior': 2, 'or': 2}},
-    'thorough': None,
+    'thorough': {'monitors': {'M.via': 188183, 'M.reread-via': 350000, 'M.via.must-reject': 56000, 'M.via.unchanged': 37000},
+                 'counters': {'via:case': 188183, 'via:case:tokens': 44445, 'via:enum-len:5': 33334, 'via:enum-len:4': 10000,
+                              'via:enum-len:3': 1000, 'via:route:update': 31000, 'via:route:update-kw': 21000,
+                              'via:route:ctor': 17000, 'via:route:ior': 12000, 'via:route:or': 12000, 'via:hot-in:kw': 10500,
+                              'via:source-keys:one': 27000, 'via:source-keys:several': 66000,
+                              'via:value:stated-defect': 28000, 'via:value:no-stated-defect': 65000,
+                              'via:outcome:refused': 21000, 'via:outcome:accepted': 48000,
+                              'via:value-stored-multiline': 39000, 'via:accepted:update': 21000,
+                              'via:accepted:update-kw': 14500, 'via:accepted:ctor': 12000,
+                              'via:ws-only-continuation-followed': 16500,
+                              'via:reread-form:str': 136000, 'via:reread-form:bytes': 57000, 'via:reread-form:stringio': 24000,
+                              'via:reread-form:bytesio': 24000, 'via:reread-form:lines-nl': 24000,
+                              'via:reread-form:lines-bare': 24000, 'via:reread-form:lines-nl-seq': 6100,
+                              'via:reread-form:lines-bare-seq': 6200, 'via:reread-form:textfile': 24000,
+                              'via:reread-form:binfile': 24000},
+                 'per-class': {'via:cls:%s': 11500, 'via:accepted:cls:%s': 6000, 'via:reread:%s:iter': 29000,
+                               'via:reread:%s:ctor': 9000},
+                 'per-src': {'via:src:%s': 6800, 'via:accepted:src:%s': 3300}, 'per-mvobj-class': 690,
+                 'per-combo': {'update': 56, 'update-kw': 56, 'ctor': 56, 'ior': 56, 'or': 56}},
 }
 for _tier, _f in _VIA_FLOORS.items():
-    if not _f:
-        continue
     FLOORS[_tier]['monitors'].update(_f['monitors'])
     FLOORS[_tier]['counters'].update(_f['counters'])
     for _pat, _n in _f['per-class'].items():
